@@ -150,6 +150,16 @@ let dispatch (cmd : string) (t : tree) : tree =
       let ids = r_list r_int order in
       let find i = try SL.find (fun c -> int_of_nat c.Sys.cid = i) cs with Not_found -> failwith "unknown component id" in
       w_bool (Sys.is_topological cs (r_list r_nat exo) (SL.map find ids))
+  | "refine_select", [cs] ->
+      let mk t = match as_list t with
+        | [ci; pos; err; cost] ->
+            { Refine.c_comp = r_nat ci; Refine.c_pos = r_nat pos;
+              Refine.c_err = (match as_list err with [] -> None | [e] -> Some (r_q e) | _ -> failwith "err");
+              Refine.c_cost = r_q cost }
+        | _ -> failwith "cand" in
+      (match Refine.select (r_list mk cs) with
+       | None -> L []
+       | Some c -> L [L [w_nat c.Refine.c_comp; w_nat c.Refine.c_pos]])
   | "shape_loop", [shapes] -> w_list w_nat (Shape.loop_shape (r_list r_shape shapes))
   | "shape_fmt_input", [l; s; data] -> w_list (w_list w_z) (Shape.fmt_input (r_shape l) (r_shape s) (r_list r_z data))
   | "shape_out", [l; o] -> w_list w_nat (Shape.fmt_output_shape (r_shape l) (r_shape o))
